@@ -97,12 +97,14 @@ PROPS = {
 }
 
 PROPS["C01"] = {
-  "units": ["egress", "enc", "framer", "batch"],
+  "units": ["egress", "enc", "framer", "batch", "hsout"],
   "kani_quick": [], "kani_thorough": [],
   "claim": "Session-local byte-stream conservation, proved unbounded on the verbatim functions: EgressBuffer (push appends at the tail, advance(n) drops exactly n bytes from the front for every n and every chunking, "
            "push_priority inserts only after the partially written head chunk, counters follow the view) and the batch encoders (frame_contiguous / frame_vectored / NullFramer wrappers emit exactly enc_batches of the frames in batch order: "
            "nothing reordered, merged, dropped or duplicated); the two batch-assembly regions of the session actor's operational loop (carry-over arm and core-pipe arm, extracted verbatim as regions) keep 'batch ++ carry-over ++ core pipe' equal to the FIFO they started from, "
-           "the core pipe is read only when the carry-over is empty, and every round with queued messages frames at least one. End-to-end delivery across tasks, pipes and the kernel is a whole-system property and is not claimed.",
+           "the core pipe is read only when the carry-over is empty, and every round with queued messages frames at least one; "
+           "in the operational loop's ingress-read arm (regions of run_loop, unit hsout) protocol replies produced while parsing (PONG) are queued through EgressBuffer::push_priority in order and never written to the socket directly "
+           "(the byte stream belongs to the egress buffer: a direct write would land inside a partially written frame), and every decoded message is appended to the ingress queue in order. End-to-end delivery across tasks, pipes and the kernel is a whole-system property and is not claimed.",
   "level_note": "Sequential contracts on single-owner state (the session actor owns EgressBuffer exclusively). Not covered: the select!/loop structure around the two regions (which arm runs when), DEALER pending queue, inproc path, fibre channels, the 'accepted during connect' part.",
   "technique": "contract-based deductive verification (Verus on mechanically extracted real functions; abstract view + representation invariant)",
   "trusted_base": COMMON_TRUSTED + ["vstd VecDeque specs + assume_specification for VecDeque::front/is_empty",
@@ -159,6 +161,8 @@ PROPS["C04"] = {
   "claim": "Engine level, proved unbounded: (1) the decoders consume nothing and change no state on an incomplete frame, and the 'append; decode until None' loop equals the spec function drain(), which lemma_cut_independent / lemma_any_segmentation "
            "prove independent of how the byte stream is cut into reads; (2) grouping into messages carries the partial message across calls (process_data contract), so deliveries depend on the frame sequence only; "
            "(3) every handler that ends in the Data phase (process_ready, process_v2_identity, process_greeting, on_network_bytes) has drained the accumulator in the same call: frames that arrive with the last handshake bytes are delivered in that output, not left behind; "
+           "(3b) byte conservation on a ghost history of the accumulator object: every handler leaves `bytes taken from the front ++ bytes still buffered` unchanged, on_network_bytes appends exactly the new bytes, "
+           "and the greeting parser / decoders / framers are proved to consume from the front only -- the engine never drops, replaces or invents a byte of the peer's stream; "
            "(4) the session actor's handshake-phase handler (apply_engine_output_handshake, its application-action loop extracted as a region) appends every such delivery, in order, to the ingress queue the operational loop hands to the socket "
            "(deliveries stop only at a PeerError).",
   "level_note": "The io_uring handler is not covered; the operational loop's own handling of DeliverMessage (ingress_buffer.push_back inside tokio::select!) is read, not under contract. The abstract framer's would_block ghost predicate is tied to real code only for NullFramer (dec_step).",
@@ -189,11 +193,12 @@ PROPS["C07"] = {
   "assumptions": ["allocation failure and stack overflow are out of scope"],
 }
 PROPS["C19"] = {
-  "units": ["engine", "egress", "command"],
+  "units": ["engine", "egress", "command", "hsout"],
   "kani_quick": [], "kani_thorough": [],
   "claim": "Proved for all (IVL, TIMEOUT, now, last_activity, last_ping, waiting) on the verbatim on_tick/process_data: no heartbeat outside the Data phase or on ZMTP/2.0; a PING goes out only if none is outstanding and at least IVL elapsed since the last activity, and is sent at the first tick where that holds; "
            "the connection is closed by on_tick only when a PING has been outstanding for at least TIMEOUT; every received PING is answered by exactly one PONG with the same context bytes, in order; any inbound frame clears the outstanding-PING state (traffic keeps the connection alive). "
-           "EgressBuffer::push_priority puts control frames ahead of queued data but only at a chunk boundary (after a partially written chunk).",
+           "EgressBuffer::push_priority puts control frames ahead of queued data but only at a chunk boundary (after a partially written chunk), and the session's operational loop hands every PONG to it (never a direct socket write: region op_net_actions); "
+           "record_activity (outbound traffic) refreshes the idle clock only: it never moves the PING time stamp, so the PONG deadline keeps running from the PING itself.",
   "level_note": "The session actor's timers (tick period, pong deadline future) and the io_uring backend are not under contract; 'no later than two intervals' follows from the per-tick clause under the assumption that the actor ticks every IVL. PING/PONG bypass the active (encrypted) framer: see DESIGN.md findings.",
   "technique": "contract-based deductive verification (Verus; abstract clock in nanoseconds)",
   "trusted_base": ENGINE_TRUSTED,
